@@ -202,10 +202,14 @@ type c18Round struct {
 	full    bool
 	nHosts  int // hosts the pool returns on a peer request
 	peerErr string
+	// what the node reports in the peers' own "enode" field (geth >= 1.9 does): 0 nothing, 1 the
+	// address they are connected through, 2 the unspecified address, 3 some other address. The
+	// host a peer is connected through is network.remoteAddress, whatever it advertises.
+	enodeForm int
 }
 
 func (r c18Round) String() string {
-	return fmt.Sprintf("peers=%v invalid=%v strict=%v target=%d node=%s/full=%v pool-returns=%d peer-error=%q", r.states, shortIDs(r.invalid), r.strict, r.target, r.kind, r.full, r.nHosts, r.peerErr)
+	return fmt.Sprintf("peers=%v invalid=%v strict=%v target=%d node=%s/full=%v pool-returns=%d peer-error=%q advertised-enode-form=%d", r.states, shortIDs(r.invalid), r.strict, r.target, r.kind, r.full, r.nHosts, r.peerErr, r.enodeForm)
 }
 
 func shortIDs(l []string) []string {
@@ -371,6 +375,14 @@ func c18Setup(r c18Round) (*recNode, *scriptPool, *agent.Agent) {
 		if strings.HasPrefix(st, "local") {
 			p := ethnode.PeerInfo{ID: c18Ids[i]}
 			p.Network.RemoteAddress = c18Addrs[i]
+			switch r.enodeForm {
+			case 1:
+				p.Enode = "enode://" + c18Ids[i] + "@" + c18Addrs[i]
+			case 2:
+				p.Enode = "enode://" + c18Ids[i] + "@[::]:30303"
+			case 3:
+				p.Enode = "enode://" + c18Ids[i] + "@203.0.113.99:30303"
+			}
 			node.peers = append(node.peers, p)
 		}
 		if e := c18ActiveEntry(i, st); e != "" {
@@ -435,7 +447,7 @@ func c18Single(shard, nshards int) vh.Unit {
 											if u.Expired() {
 												return
 											}
-											r := c18Round{states: [4]string{s0, s1, s2, s3}, invalid: inv, strict: strict, target: target, kind: kf.k, full: kf.f, nHosts: nh}
+											r := c18Round{states: [4]string{s0, s1, s2, s3}, invalid: inv, strict: strict, target: target, kind: kf.k, full: kf.f, nHosts: nh, enodeForm: (idx / nshards) % 4}
 											node, sp, a := c18Setup(r)
 											if err := c18Start(a, sp, r); err != nil {
 												u.Violate("agent/start-failed", err.Error(), nil)
